@@ -130,8 +130,10 @@ P = {
        "(C13_major_*: same scores, same admissibility, one-to-one enumeration); for two builds on one strand the WHOLE major stage incl. evidence "
        "filters and candidate selection (C13_major_stage_same_strand), the minor-stage specification of C04 incl. phase term, admissibility and "
        "property clauses (C13_minor_*, strictly increasing position maps) and the normalised region depths that feed the copy-number stage "
-       "(C13_region_depths_equivariant, shifts and strand mirroring) are proved equivariant. NOT proved: the minor-stage evidence filter, and "
-       "major/minor filters on opposite strands. Decided by running the real stages on the same "
+       "(C13_region_depths_equivariant, shifts and strand mirroring) are proved equivariant, the evidence filters of both stages commute with every "
+       "injective position map (C13_major_filter_equivariant, C13_minor_filter_equivariant), and for builds that differ by one offset the pileup "
+       "itself is translation-equivariant for every read set (C13_pileup_shift: reads -> coverage table, coverage/total, phase records). NOT "
+       "proved: major/minor filters and the pileup on opposite strands, gapped alignments at the read level. Decided by running the real stages on the same "
        "evidence transported through the RefSeq maps between hg19/hg38 (shipped genes) and between opposite strands (generated databases), and on "
        "simulated alignments against each build; structures, majors, minors, scores and RefSeq-expressed added/lost variants are compared.",
   note=TRUST + "pysam, simulator, CBC, indelpost. Open findings (opposite-strand same-site sub+del and adjacent ins+sub, phase term, indel support anchor, realigner incl. its dependence on the absolute coordinate, exact ties) in known_findings.json.",
